@@ -51,13 +51,15 @@ pub struct Project { pub groups: Vec<RuleGroup>, pub words: Vec<(String, String)
 const SAFE_RULES: [&str; 16] = ["a > e / _#", "p > b / V_V", "V > [+nasal] / _N", "t > * / _#", "* > ə / #_s", "$ > * / V_V", "C=1 V=2 > 2 1 / #_", "[+voice] > [-voice] | _#", "%:[+stress] > [-stress]", "n > m / _{p,b}", "s > ʃ / _i ;; palatalisation",
     "k > t͡ʃ / _[+front]", "V:[+long] > [-long]", "e, o > i, u / _C#", "[+cons, -son] > [+voice] / V_V", "r...l > &"];
 // (the non-ASCII ones have simple one-to-one case mappings: names are compared case-insensitively by `seq` filters)
-const NAME_PARTS: [&str; 17] = ["Grimm's Law", "Umlaut", "final devoicing", "Step", "Cluster Simplification", "Hap(lo)logy", "Great Vowel Shift", "i-mutation", "Palatalisation #2", "syncope", "LENITION", "a > e",
+const NAME_PARTS: [&str; 21] = ["@handle", "final a > @", "C# minor", "t@",
+    "Grimm's Law", "Umlaut", "final devoicing", "Step", "Cluster Simplification", "Hap(lo)logy", "Great Vowel Shift", "i-mutation", "Palatalisation #2", "syncope", "LENITION", "a > e",
     "Ö-Umlaut", "Ægir's Law", "Ñ-shift", "Žeta Ω", "Ябло́ко É"];
 const DESC_LINES: [&str; 8] = ["Voiceless plosives become fricatives", "see Ringe 2006: 93", "- note: ordered before umlaut", "only in unstressed syllables!", "x > y / _z", "TODO", "(regular)", "Chain shift of the three series"];
 
 pub fn rand_group(r: &mut Rng, idx: usize, unique: bool) -> RuleGroup {
     let mut name = r.pick(&NAME_PARTS).to_string();
-    if unique || r.chance(1, 2) { name = format!("{name} {idx}") }
+    // (the number goes in front of a name that ends in `@`, so that the name still ends in it)
+    if unique || r.chance(1, 2) { name = if name.ends_with('@') { format!("{idx} {name}") } else { format!("{name} {idx}") } }
     let nr = r.below(5);
     let mut rules = Vec::new();
     for _ in 0..nr {
